@@ -32,6 +32,11 @@ def validate_decoded(iterable):
       raise gfapy.FormatError(
         "{} is not a valid GFA1 segment name\n".format(elem.name)+
         "(it does not match [!-)+-<>-~][!-~]*)")
+    if "," in elem.name:
+      # (the list is written separated by commas)
+      raise gfapy.FormatError(
+        "the segment name {} contains a comma: ".format(elem.name)+
+        "it cannot be written in a list of segment names")
 
 def unsafe_encode(obj):
   if isinstance(obj, str):
